@@ -413,6 +413,13 @@ func (p *Parser) parseProviderArgument(pkg *packages.Package, kessokuPackageScop
 					return nil
 				}
 				continue
+			case *ast.ParenExpr:
+				currentArg = v.X
+			case *ast.SelectorExpr:
+				// pkg.SetVar: resolved (and reported as unsupported) through its identifier
+				currentArg = v.Sel
+			default:
+				return fmt.Errorf("invalid Set call expression")
 			}
 		}
 
